@@ -208,6 +208,7 @@ type C12ExitCase struct {
 	Arrival string `json:"arrival"` // io | curl
 	Lines   int    `json:"lines"`
 	EndBy   string `json:"end_by"` // client exit-command
+	HoldMs  int    `json:"hold_ms,omitempty"` // idle time after the listener closed
 }
 
 func runC12Exit(t testing.TB, c C12ExitCase) (key, what string) {
@@ -268,7 +269,13 @@ func runC12Exit(t testing.TB, c C12ExitCase) (key, what string) {
 		}
 		time.Sleep(50 * time.Millisecond)
 	}
-	// the shell keeps working
+	// the shell keeps working, however long it sits idle first
+	if c.HoldMs > 0 {
+		time.Sleep(time.Duration(c.HoldMs) * time.Millisecond)
+		if i := strings.Index(p.Output(), "Shell is ready"); i >= 0 && strings.Contains(p.Output()[i:], "Shell is gone") {
+			return "shell-disturbed-while-idle", fmt.Sprintf("the attached shell sat idle for %d ms after the listener closed and was torn down: %s", c.HoldMs, tailOf(p.Output(), 300))
+		}
+	}
 	for i := 0; i < c.Lines; i++ {
 		tok := fmt.Sprintf("tok%d", i)
 		if curl != nil {
@@ -293,7 +300,7 @@ func runC12Exit(t testing.TB, c C12ExitCase) (key, what string) {
 		io.Close()
 	}
 	if !p.WaitOutput(20*time.Second, "Shell is gone") {
-		return "HARNESS", "shell did not go away: " + clip(p.Output(), 400)
+		return "HARNESS", fmt.Sprintf("shell did not go away (%s/%s/%d): %s", c.Arrival, c.EndBy, c.Lines, tailOf(p.Output(), 700))
 	}
 	// it exits by itself, at the next entered line at the latest
 	if !p.WaitExit(1500 * time.Millisecond) {
@@ -351,6 +358,7 @@ func TestC12Exit(t *testing.T) {
 			Arrival: rapid.SampledFrom([]string{"io", "curl"}).Draw(rt, "arrival"),
 			Lines:   rapid.IntRange(0, 3).Draw(rt, "lines"),
 			EndBy:   rapid.SampledFrom([]string{"client", "exit-command"}).Draw(rt, "endby"),
+			HoldMs:  rapid.SampledFrom([]int{0, 0, 0, 0, 300, 6500}).Draw(rt, "hold"),
 		}
 		canon, _ := json.Marshal(c)
 		cc.Case("L4"+string(canon), true, "L4-real-binary", "L4-arrival-"+c.Arrival)
